@@ -391,6 +391,32 @@ def permute_twice_sites(ix, modules):
     return out, scanned
 
 
+def _by_name_lookup(ctx):
+    """The in-memory sequence table is keyed by chromosome NAME.  A chromosome code of an interval table indexes the genome's name order, which need not be
+    the dict's order (sort_names, another genome object): rows must be looked up by name, never by position in `dict.values()`."""
+    ix = ctx.index
+    f = ix.func("bionumpy.genomic_data.genomic_sequence", "GenomicSequenceDict._extract_intervals")
+    env = local_env(f.node)
+    n = 0
+    for x in [y for st in f.node.body for y in ast.walk(st)]:
+        if not isinstance(x, ast.Subscript):
+            continue
+        base = x.value
+        b = u(base)
+        via = env.get(b) if isinstance(base, ast.Name) else None
+        src = u(via) if via is not None else b
+        if not (b == "self._dict" or (via is not None and "self._dict" in src) or (isinstance(base, ast.Call) and "self._dict" in b)):
+            continue
+        n += 1
+        positional = ".values()" in src or ".items()" in src or "list(self._dict" in src
+        by_name = b == "self._dict" and "to_string()" in u(x.slice)
+        if not positional and not by_name:
+            raise Unrecognised(f"{f.where}: the sequence table is indexed in an unknown form: {u(x)[:80]}")
+        ctx.ob(f.where, "sequences are looked up in the table by chromosome name (a chromosome code is an index into the GENOME's order, not the table's)", by_name and not positional,
+               u(x)[:100], key=f"C14-R4|by-name|{'positional' if positional else 'name'}")
+    ctx.floor("look-ups in the in-memory sequence table", n, 1)
+
+
 def r4_caches_and_permutations(ctx):
     """(a) dict caches of complement / translation tables are keyed by everything the cached value depends on (an alphabet's letters AND their order);
     (b) sequences fetched for intervals in a sorted order are put back with the inverse permutation."""
@@ -407,6 +433,7 @@ def r4_caches_and_permutations(ctx):
                f"(use np.argsort({p}) or scatter into out[{p}])", False, u(x), key=f"C14-R4|permute-twice|{fi.module.name}|{fi.qualname}|{r}")
     ctx.ob("bionumpy.genomic_data, bionumpy.sequence", f"{scanned} functions scanned: no value computed on permuted entries is indexed by the same permutation again", True, "",
            key="C14-R4|permute-twice-scan")
+    _by_name_lookup(ctx)
 
 
 from ..through_time import make_rule as _mk_tt
@@ -416,6 +443,10 @@ def _fasta_byte_arithmetic(ctx):
     from .c17 import r2_byte_arithmetic
     r2_byte_arithmetic(ctx)    # sequence under intervals is read from the indexed FASTA with this arithmetic
 
+def _delta_arrays(ctx):
+    from ..idioms import check_delta_arrays
+    check_delta_arrays(ctx, ["bionumpy.sequence.dna", "bionumpy.sequence.lookup", "bionumpy.sequence.translate", "bionumpy.genomic_data.genomic_sequence", "bionumpy.sequence.genes"], "C14-R6")
+
 RULES = [
     ("C14-R1", r1_complement),
     ("C14-R2", r2_genetic_code),
@@ -423,4 +454,5 @@ RULES = [
     ("C14-R4", r4_caches_and_permutations),
     ("C14-T1", _through_time),
     ("C14-R5", _fasta_byte_arithmetic),
+    ("C14-R6", _delta_arrays),
 ]
